@@ -204,6 +204,11 @@ EquivariantFit(fam, num, den, n, p1, p2, ll1, ll2) ==
 AdmissiblePar(fam, par) ==
     \A i \in 1..Len(par) : MustBePositive(Roles(fam)[i]) => par[i] > 0
 
+(* fixed-parameter fits are judged by likelihood for the likelihood estimators; for the 3-parameter  *)
+(* Weibull only with the location fixed (a free location from the default start is the recorded     *)
+(* finding, see Label)                                                                              *)
+FixedJudged(fam, kfix) == ~MomentEstimator(fam) /\ (fam = "Weibull" => kfix = 3)
+
 (* moment estimator: mu_norm = mean, sigma_norm = std(ddof=1); 2 micro for rounding plus *)
 (* 1e-9 relative for the summation order                                                *)
 MomentsOk(par, mean, std) ==
